@@ -33,6 +33,7 @@ import (
 	aboauth2 "github.com/volatiletech/authboss/v3/oauth2"
 	_ "github.com/volatiletech/authboss/v3/otp"
 	"github.com/volatiletech/authboss/v3/otp/twofactor"
+	"github.com/volatiletech/authboss/v3/otp/twofactor/sms2fa"
 	"github.com/volatiletech/authboss/v3/otp/twofactor/totp2fa"
 	_ "github.com/volatiletech/authboss/v3/recover"
 	_ "github.com/volatiletech/authboss/v3/register"
@@ -204,8 +205,17 @@ type Inst struct {
 	Store *world.Storer
 	Top   http.Handler
 	Mail  *mailbox
+	SMS   *mailbox // codes by phone number
 	Log   *safeWriter
+	JSON  bool
 	smtp  *smtpServer
+}
+
+type smsSender struct{ box *mailbox }
+
+func (s smsSender) Send(ctx context.Context, number, text string) error {
+	s.box.box(number) <- text
+	return nil
 }
 
 // the OAuth2 provider stub is process-wide (the exchanger hook is a package variable)
@@ -226,9 +236,9 @@ func (b bodyReader) Read(page string, r *http.Request) (authboss.Validator, erro
 	return b.inner.Read(page, r)
 }
 
-// New builds the instance. mailer: "smtp" | "log".
-func New(mailer string) (*Inst, error) {
-	in := &Inst{Mail: &mailbox{}, Log: &safeWriter{}}
+// New builds the instance. mailer: "smtp" | "log"; jsonMode: API mode (JSON bodies in and out).
+func New(mailer string, jsonMode bool) (*Inst, error) {
+	in := &Inst{Mail: &mailbox{}, SMS: &mailbox{}, Log: &safeWriter{}, JSON: jsonMode}
 	in.Store = world.NewStorer(false)
 	ab := authboss.New()
 	in.AB = ab
@@ -238,7 +248,7 @@ func New(mailer string) (*Inst, error) {
 	ab.Config.Storage.CookieState = hdrJar{"cook"}
 	ab.Config.Core.ViewRenderer = defaults.JSONRenderer{}
 	ab.Config.Core.MailRenderer = defaults.JSONRenderer{}
-	defaults.SetCore(&ab.Config, false, false)
+	defaults.SetCore(&ab.Config, jsonMode, false)
 	ab.Config.Core.Logger = defaults.NewLogger(in.Log)
 	ab.Config.Core.ErrorHandler = defaults.NewErrorHandler(ab.Config.Core.Logger)
 	ab.Config.Core.BodyReader = bodyReader{ab.Config.Core.BodyReader}
@@ -262,6 +272,9 @@ func New(mailer string) (*Inst, error) {
 	ab.Config.Modules.RecoverTokenDuration = time.Hour
 	ab.Config.Modules.LogoutMethod = "DELETE"
 	ab.Config.Modules.MailNoGoroutine = false // the library's own mail goroutines are part of the subject
+	if jsonMode {
+		ab.Config.Modules.MailRouteMethod = "POST" // API clients submit the mailed token in a JSON body
+	}
 	ab.Config.Modules.TOTP2FAIssuer = "verif"
 	ab.Config.Modules.OAuth2Providers = map[string]authboss.OAuth2Provider{
 		"stub": {
@@ -291,6 +304,9 @@ func New(mailer string) (*Inst, error) {
 	if err := (&totp2fa.TOTP{Authboss: ab}).Setup(); err != nil {
 		return nil, err
 	}
+	if err := (&sms2fa.SMS{Authboss: ab, Sender: smsSender{in.SMS}}).Setup(); err != nil {
+		return nil, err
+	}
 	if err := (&twofactor.Recovery{Authboss: ab}).Setup(); err != nil {
 		return nil, err
 	}
@@ -307,6 +323,7 @@ func New(mailer string) (*Inst, error) {
 	mux.Handle("/p/", authboss.Middleware2(ab, authboss.RequireNone, authboss.RespondUnauthorized)(probe))
 	mux.Handle("/full/", authboss.Middleware2(ab, authboss.RequireFullAuth, authboss.RespondUnauthorized)(probe))
 	mux.Handle("/open/", probe)
+	mux.Handle("/r/", authboss.Middleware2(ab, authboss.RequireNone, authboss.RespondRedirect)(probe))
 	mux.Handle("/", confirm.Middleware(ab)(lock.Middleware(ab)(probe)))
 	var h http.Handler = mux
 	h = expire.Middleware(ab)(h)
@@ -380,12 +397,22 @@ func apply(jar map[string]string, evs []jarEvent) {
 // Do sends one request; the canonical form of everything the client sees goes to the transcript.
 func (c *Client) Do(label, method, target string, form url.Values) (int, map[string]interface{}) {
 	var body io.Reader
+	ct := ""
 	if form != nil {
-		body = strings.NewReader(form.Encode())
+		if c.in.JSON {
+			m := map[string]string{}
+			for k := range form {
+				m[k] = form.Get(k)
+			}
+			b, _ := json.Marshal(m)
+			body, ct = bytes.NewReader(b), "application/json"
+		} else {
+			body, ct = strings.NewReader(form.Encode()), "application/x-www-form-urlencoded"
+		}
 	}
 	req := httptest.NewRequest(method, "http://site.test"+target, body)
-	if form != nil {
-		req.Header.Set("Content-Type", "application/x-www-form-urlencoded")
+	if ct != "" {
+		req.Header.Set("Content-Type", ct)
 	}
 	sj, _ := json.Marshal(c.Sess)
 	cj, _ := json.Marshal(c.Cook)
@@ -474,6 +501,19 @@ func (c *Client) WaitMail(rcpt string) string {
 	}
 }
 
+// WaitSMS blocks for the next text message to number.
+func (c *Client) WaitSMS(number string) string {
+	select {
+	case code := <-c.in.SMS.box(number):
+		c.vol[code] = "<sms-code>"
+		c.Transcript = append(c.Transcript, "sms to "+number)
+		return code
+	case <-time.After(20 * time.Second):
+		c.Transcript = append(c.Transcript, "NO SMS for "+number)
+		return ""
+	}
+}
+
 // Script: one client's whole life on its own accounts.
 func (c *Client) Script(rounds int) {
 	for round := 0; round < rounds; round++ {
@@ -486,9 +526,15 @@ func (c *Client) Script(rounds int) {
 			}
 			return v
 		}
+		// not logged in yet: a protected page in redirect mode sends to the login page with *this* request's return address
+		c.Do("redirect-unauthed", "GET", fmt.Sprintf("/r/c%d/round%d?doc=%d&tab=%d", c.ID, round, c.ID*100+round, c.ID), nil)
 		c.Do("register", "POST", "/auth/register", f("email", me, "password", pw, "confirm_password", pw))
 		if t := c.WaitMail(me); t != "" {
-			c.Do("confirm", "GET", "/auth/confirm?cnf="+url.QueryEscape(t), nil)
+			if c.in.JSON {
+				c.Do("confirm", "POST", "/auth/confirm", f("cnf", t))
+			} else {
+				c.Do("confirm", "GET", "/auth/confirm?cnf="+url.QueryEscape(t), nil)
+			}
 		}
 		c.Do("logout0", "DELETE", "/auth/logout", nil)
 		c.Do("login-bad", "POST", "/auth/login", f("email", me, "password", "wrong"))
@@ -527,6 +573,20 @@ func (c *Client) Script(rounds int) {
 			code2, _ := totp.GenerateCode(sec, time.Now())
 			c.vol[code2] = "<totp-code>"
 			c.Do("totp-validate", "POST", "/auth/2fa/totp/validate", f("code", code2))
+		}
+		// SMS second factor on the round-1 account (number of its own)
+		if round == 1 {
+			phone := fmt.Sprintf("+1555%04d%02d", c.ID, round)
+			c.Do("sms-setup", "POST", "/auth/2fa/sms/setup", f("phone_number", phone))
+			if code := c.WaitSMS(phone); code != "" {
+				c.Do("sms-confirm", "POST", "/auth/2fa/sms/confirm", f("code", code))
+				c.Do("logout-sms", "DELETE", "/auth/logout", nil)
+				c.Do("login-sms", "POST", "/auth/login", f("email", me, "password", pw2))
+				if code2 := c.WaitSMS(phone); code2 != "" {
+					c.Do("sms-validate", "POST", "/auth/2fa/sms/validate", f("code", code2))
+					c.Do("protected-after-sms", "GET", "/p/x", nil)
+				}
+			}
 		}
 		c.Do("logout4", "DELETE", "/auth/logout", nil)
 		// OAuth2 round trip on an account of its own
